@@ -1,6 +1,7 @@
 (* C09 — Series request limits are enforced (partial: the limiter and the limiting
-   server wrapper of pkg/store/limiter.go; the reservation schedule inside
-   BucketStore.Series — ExpandPostings / nextBatch in bucket.go — is not modelled).
+   server wrapper of pkg/store/limiter.go, and the reservation schedule of
+   BucketStore.Series with eagerly expanded postings — ExpandPostings / nextBatch in
+   bucket.go; lazily expanded postings and the request's own Limit field are not modelled).
    Property theorems only; each is closed by [exact] of a lemma of Proofs/C09.v.
    Full statement kept visible: "a Series call that succeeds never returns more series
    than the series limit or more chunks than the chunk limit, and a request that would
@@ -51,6 +52,34 @@ Theorem C09_no_silent_truncation_partial : forall sl cl rs, tot_s rs < two64 -> 
 Proof. exact server_no_silent_truncation. Qed.
 Print Assumptions C09_no_silent_truncation_partial.
 
+(* BucketStore.Series, eager postings: every block client reserves len(postings) series and,
+   per returned series, its chunks in the time range, on limiters shared by the whole
+   request. For all blocks, all limit values, chunks skipped or not: a request that succeeds
+   sends at most the limits (returned <= reserved <= limit) ... *)
+Theorem C09_store_bound_partial : forall sl cl skip blocks,
+  N.of_nat (length (concat blocks)) < two64 -> returned_chunks skip blocks < two64 ->
+  store_ok sl cl skip blocks = true ->
+  within sl (returned_series blocks) = true /\ within cl (returned_chunks skip blocks) = true.
+Proof. exact store_bound. Qed.
+Print Assumptions C09_store_bound_partial.
+
+(* ... and a request whose result exceeds a limit is refused (every reservation that the
+   result needs is made before the data is sent), never shortened. *)
+Theorem C09_store_no_silent_truncation_partial : forall sl cl skip blocks,
+  N.of_nat (length (concat blocks)) < two64 -> returned_chunks skip blocks < two64 ->
+  (sl <> 0 /\ sl < returned_series blocks) \/ (cl <> 0 /\ cl < returned_chunks skip blocks) ->
+  store_ok sl cl skip blocks = false.
+Proof. exact store_no_silent_truncation. Qed.
+Print Assumptions C09_store_no_silent_truncation_partial.
+
+Theorem C09_store_pred : forall sl cl skip blocks sres cres tseries,
+  N.of_nat (length (concat blocks)) < two64 -> returned_chunks skip blocks < two64 ->
+  tseries <= returned_series blocks ->
+  pred_ok (CStore sl cl skip blocks (store_ok sl cl skip blocks) (negb (store_ok sl cl skip blocks)) sres cres
+                  tseries (returned_chunks skip blocks) tseries (returned_chunks skip blocks)) = true.
+Proof. exact store_case_pred. Qed.
+Print Assumptions C09_store_pred.
+
 (* through the predicates the check evaluates on the implementation's observables *)
 Theorem C09_limiter_pred : forall limit nums, pred_ok (CLimiter limit nums (reserves (new_limiter limit) nums)) = true.
 Proof. exact limiter_case_pred. Qed.
@@ -85,5 +114,9 @@ Example C09_nonvacuous :
   reserves (new_limiter 5) [2; 3; 1; 0] = [true; true; false; false] /\
   stream (new_limiter 2) (new_limiter 360) [RSeries 1; ROther; RBatch [None; Some 2]] = (3, true) /\
   stream (new_limiter 2) (new_limiter 359) [RSeries 1; ROther; RBatch [None; Some 2]] = (2, false) /\
-  sum_n [2; 3; 1; 0] < two64.
+  sum_n [2; 3; 1; 0] < two64 /\
+  (* two blocks: 3 matched series (one without chunks in range) and 2; series limit 5 is
+     needed although 4 series are returned; chunk limit 7 = 3+2+1+1 *)
+  store_ok 5 7 false [[3; 0; 2]; [1; 1]] = true /\ store_ok 4 7 false [[3; 0; 2]; [1; 1]] = false /\
+  store_ok 5 6 false [[3; 0; 2]; [1; 1]] = false /\ returned_series [[3; 0; 2]; [1; 1]] = 4.
 Proof. vm_compute. repeat split; reflexivity. Qed.
